@@ -72,7 +72,7 @@ def run_c16(S, oracles, wall=20):
     if res["status"] != "ok" or len(S["plan"]) < 2:
         return res
     A = copy.deepcopy(S)
-    A["plan"] = [S["plan"][-1]]
+    A["plan"] = [S["plan"][-1]]       # one call: no pauses, no spawned simulations, no peeks
     resA = run_spec(A, oracles, wall=wall, keep=True)
     RA = resA.pop("R", None)
     if resA["status"] != "ok":
